@@ -82,7 +82,10 @@ package mempool
 //@ loop 0 invariant[wf] wfList(conflictsToBeRemoved, len(conflictsToBeRemoved))
 //@ loop 0 invariant[fresh] (conflictsToBeRemoved == nil && len(conflictsToBeRemoved) == 0) || fresh(conflictsToBeRemoved)
 //@ loop 2 invariant[wf] wfList(conflictsToBeRemoved, len(conflictsToBeRemoved))
-//@ loop 2 invariant[fresh] (conflictsToBeRemoved == nil && len(conflictsToBeRemoved) == 0) || fresh(conflictsToBeRemoved)
+// No Conflicts attribute of tx is skipped: the scan of tx's own attributes is left for the fee
+// comparison only after the last attribute (a pooled transaction named by a later attribute would
+// otherwise stay pooled next to tx).
+//@ loop 2 exit[all] $i == len(conflictsAttrs)
 //@ loop 4 invariant[sum] uint256.u256(expectedPayerFee.feeSum) == (uint256.u256(actualPayerFee.feeSum) - sumFees(conflictsToBeRemoved, $i, p)) % uint256.two256()
 //@ loop 4 invariant[bal] uint256.u256(expectedPayerFee.balance) == uint256.u256(actualPayerFee.balance)
 
